@@ -114,8 +114,16 @@ func pairs(c *props.Ctx) {
 			continue
 		}
 		reset()
-		if _, err := outlier.LoadRules([]*outlier.Rule{mkRule("svc", p, false, false)}); err != nil {
+		// a second resource with a rule and nodes of its own, loaded by the same call: node
+		// bookkeeping and the cap are per resource
+		if _, err := outlier.LoadRules([]*outlier.Rule{mkRule("svc", p, false, false), mkRule("other", 1, false, false)}); err != nil {
 			panic(err)
+		}
+		for k := 0; k < 3; k++ {
+			call(sc, "other", fmt.Sprintf("o%d", k), k == 0)
+		}
+		if got := len(outlier.VerifNodes("other")); got != 3 {
+			c.R.Violate(report.Violation{Signature: "C20:known-nodes-not-per-resource", What: fmt.Sprintf("resource 'other' was called on 3 nodes and knows %d", got), Scenario: "pairs", Replay: map[string]interface{}{"kind": "pair", "p": p}})
 		}
 		for n := 1; n <= maxN; n++ {
 			// node n-1 fails once: its breaker opens (error count 1); all earlier ones are open already
@@ -124,7 +132,9 @@ func pairs(c *props.Ctx) {
 			// known nodes now: n failing ones + "observer"
 			total := n + 1
 			if len(outlier.VerifNodes("svc")) != total {
-				c.R.HarnessError(fmt.Sprintf("expected %d known nodes, have %d", total, len(outlier.VerifNodes("svc"))))
+				c.R.Violate(report.Violation{Signature: "C20:known-nodes-not-per-resource",
+					What:     fmt.Sprintf("resource 'svc' was called on %d nodes and knows %d (another resource with 3 nodes of its own was loaded by the same call)", total, len(outlier.VerifNodes("svc"))),
+					Scenario: "pairs", Replay: map[string]interface{}{"kind": "pair", "n": total, "p": p}})
 				break
 			}
 			prod := new(big.Rat).Mul(new(big.Rat).SetFloat64(p), big.NewRat(int64(total), 1))
